@@ -515,7 +515,8 @@ class TypeGen:
 
     def __init__(self, *, models=True, unions=True, rich_scalars=True, enums=True, literals=True, wrappers=True,
                  any_types=True, abcs=True, max_depth=3, model_kinds=("dataclass", "namedtuple", "typeddict", "attrs"),
-                 recursive_models=True, io_types=True, lookalike_literals=True, dumpable_unions=True):
+                 recursive_models=True, io_types=True, lookalike_literals=True, dumpable_unions=True,
+                 disjoint_unions=True):
         self.models = models
         self.unions = unions
         self.rich = rich_scalars
@@ -533,6 +534,7 @@ class TypeGen:
         # the classes in type(obj).mro(): NewType/Annotated wrappers, abstract collections (virtual subclasses),
         # TypedDict, ByteString, PathLike and IO[bytes] cannot be union cases when the type is to be dumped.
         self.dumpable_unions = dumpable_unions
+        self.disjoint_unions = disjoint_unions   # False: cases may overlap (only for oracles that do not depend on it)
 
     def strategy(self):
         return self._root()
@@ -645,7 +647,7 @@ class TypeGen:
             if self.dumpable_unions and not union_case_dumpable(c):
                 continue
             sh = shapes(c, True)
-            if seen_strict & sh:
+            if self.disjoint_unions and seen_strict & sh:
                 continue
             seen_strict |= sh
             cases.append(c)
